@@ -166,4 +166,172 @@ theorem dsum_eq_sum : ∀ (gs : List ℚ) (i : Nat),
     simp only [Finset.range_zero, Finset.sum_empty, add_zero, nsmul_eq_mul]
     push_cast; ring
 
+/-! ### gamma: from the speciation ages to the two sums -/
+
+theorem wsum_append : ∀ (a b : List ℚ) (i : Nat), wsum i (a ++ b) = wsum i a + wsum (i + a.length) b
+  | [], b, i => by simp [wsum]
+  | x :: a, b, i => by
+    simp only [List.cons_append, wsum, wsum_append a b (i + 1), List.length_cons]
+    rw [show i + 1 + a.length = i + (a.length + 1) by omega]; ring
+
+theorem insertDesc_perm (x : Frac) : ∀ l : List Frac, (insertDesc x l).Perm (x :: l)
+  | [] => by simp [insertDesc]
+  | y :: ys => by
+    simp only [insertDesc]
+    split
+    · exact ((insertDesc_perm x ys).cons y).trans (List.Perm.swap x y ys)
+    · exact List.Perm.refl _
+
+theorem sortDesc_perm : ∀ l : List Frac, (sortDesc l).Perm l
+  | [] => by simp [sortDesc]
+  | x :: xs => by
+    have ih := sortDesc_perm xs
+    simp only [sortDesc, List.foldr_cons] at ih ⊢
+    exact (insertDesc_perm x _).trans (ih.cons x)
+
+/-- descending in ℚ -/
+def Desc (l : List Frac) : Prop := l.Pairwise (fun a b => b.toRat ≤ a.toRat)
+
+theorem insertDesc_desc {x : Frac} (hx : x.WF) : ∀ l : List Frac, (∀ y ∈ l, y.WF) → Desc l → Desc (insertDesc x l)
+  | [], _, _ => by simp [insertDesc, Desc]
+  | y :: ys, hw, hd => by
+    have hy : y.WF := hw y List.mem_cons_self
+    have hd' := List.pairwise_cons.mp hd
+    simp only [insertDesc]
+    by_cases hlt : Frac.lt x y = true
+    · simp only [hlt, if_true]
+      have ih := insertDesc_desc hx ys (fun z hz => hw z (List.mem_cons_of_mem _ hz)) hd'.2
+      refine List.pairwise_cons.mpr ⟨?_, ih⟩
+      intro z hz
+      rcases List.mem_cons.mp ((insertDesc_perm x ys).subset hz) with rfl | hz'
+      · exact le_of_lt ((Frac.lt_iff hx hy).mp hlt)
+      · exact hd'.1 z hz'
+    · have hf : Frac.lt x y = false := by simpa using hlt
+      simp only [hf, Bool.false_eq_true, if_false]
+      have hyx := (Frac.lt_false_iff hx hy).mp hf
+      refine List.pairwise_cons.mpr ⟨?_, hd⟩
+      intro z hz
+      rcases List.mem_cons.mp hz with rfl | hz'
+      · exact hyx
+      · exact le_trans (hd'.1 z hz') hyx
+
+theorem sortDesc_desc : ∀ l : List Frac, (∀ y ∈ l, y.WF) → Desc (sortDesc l)
+  | [], _ => by simp [sortDesc, Desc]
+  | x :: xs, hw => by
+    have ih := sortDesc_desc xs (fun z hz => hw z (List.mem_cons_of_mem _ hz))
+    simp only [sortDesc, List.foldr_cons] at ih ⊢
+    exact insertDesc_desc (hw x List.mem_cons_self) _
+      (fun z hz => hw z (List.mem_cons_of_mem _ ((sortDesc_perm xs).subset hz))) ih
+
+theorem intervals_length : ∀ l : List Frac, (intervals l).length = l.length
+  | [] => rfl
+  | [_] => rfl
+  | a :: b :: r => by simp [intervals, intervals_length (b :: r)]
+
+theorem intervals_wf : ∀ l : List Frac, (∀ x ∈ l, x.WF) → ∀ g ∈ intervals l, g.WF
+  | [], _, g, hg => by simp [intervals] at hg
+  | [a], h, g, hg => by
+    simp only [intervals, List.mem_singleton] at hg; rw [hg]; exact h a List.mem_cons_self
+  | a :: b :: r, h, g, hg => by
+    simp only [intervals] at hg
+    rcases List.mem_cons.mp hg with rfl | hg'
+    · exact Frac.sub_wf _ _
+    · exact intervals_wf (b :: r) (fun x hx => h x (List.mem_cons_of_mem _ hx)) g hg'
+
+/-- `g_j = S_j − S_{j+1}` (with `S_len = 0`): the waiting time between consecutive speciation ages -/
+theorem intervals_getD : ∀ (l : List Frac), (∀ x ∈ l, x.WF) → ∀ j : Nat,
+    ((intervals l).map Frac.toRat).getD j 0 = (l.map Frac.toRat).getD j 0 - (l.map Frac.toRat).getD (j + 1) 0
+  | [], _, j => by simp [intervals]
+  | [a], _, j => by
+    cases j <;> simp [intervals]
+  | a :: b :: r, h, j => by
+    have ha := h a List.mem_cons_self
+    have hb := h b (List.mem_cons_of_mem _ List.mem_cons_self)
+    cases j with
+    | zero => simp [intervals, Frac.sub_toRat ha hb]
+    | succ j =>
+      have ih := intervals_getD (b :: r) (fun x hx => h x (List.mem_cons_of_mem _ hx)) j
+      simpa [intervals] using ih
+
+theorem getLast!_eq_getLast {l : List Frac} (h : l ≠ []) : l.getLast! = l.getLast h := by
+  cases l with
+  | nil => exact absurd rfl h
+  | cons a as => simp [List.getLast!]
+
+theorem gammaParts_spec (a : AT) (hwf : ∀ x ∈ (specAges a).1, x.WF) {num tt : Frac} {n : Nat}
+    (h : gammaParts a = .ok (num, tt, n)) :
+    n = (specAges a).2 ∧ ((intervals (sortDesc (specAges a).1)).map Frac.toRat).length + 1 = n ∧ 3 ≤ n ∧
+    tt.toRat = wsum 2 ((intervals (sortDesc (specAges a).1)).map Frac.toRat) ∧
+    num.toRat = dsum 2 (((intervals (sortDesc (specAges a).1)).dropLast).map Frac.toRat) / ((n : ℚ) - 2) - tt.toRat / 2 := by
+  rcases hsa : specAges a with ⟨sa, n0⟩
+  rw [hsa] at hwf
+  simp only at hwf
+  have hS : ∀ x ∈ sortDesc sa, x.WF := fun x hx => hwf x ((sortDesc_perm sa).subset hx)
+  unfold gammaParts at h
+  rw [hsa] at h
+  simp only at h
+  cases hs : sortDesc sa with
+  | nil => rw [hs] at h; cases h
+  | cons s ss =>
+    rw [hs] at h hS
+    simp only at h
+    have hg := intervals_wf (s :: ss) hS
+    have hlen := intervals_length (s :: ss)
+    have hne : intervals (s :: ss) ≠ [] := by
+      intro h0; rw [h0] at hlen; simp at hlen
+    split at h
+    · cases h
+    · rename_i hl
+      split at h
+      · cases h
+      · rename_i hn2
+        have hl' : (intervals (s :: ss)).length + 1 = n0 := by simpa using hl
+        have hn2' : n0 ≠ 2 := by simpa using hn2
+        have hdl : ∀ g ∈ (intervals (s :: ss)).dropLast, g.WF :=
+          fun g hgm => hg g (List.dropLast_subset _ hgm)
+        obtain ⟨w1, w2, e1, e2⟩ := gammaLoop_spec _ 2 Frac.zero Frac.zero hdl Frac.zero_wf Frac.zero_wf
+        have hlast : (intervals (s :: ss)).getLast!.WF := by
+          rw [getLast!_eq_getLast hne]; exact hg _ (List.getLast_mem hne)
+        simp only [Except.ok.injEq, Prod.mk.injEq] at h
+        obtain ⟨hnum, htt, hn⟩ := h
+        subst hn
+        have hmul : (Frac.ofNat n0 * (intervals (s :: ss)).getLast!).WF := Frac.mul_wf _ _
+        have httq : tt.toRat = wsum 2 ((intervals (s :: ss)).map Frac.toRat) := by
+          rw [← htt, Frac.add_toRat w1 hmul, e1, Frac.mul_toRat (Frac.ofNat_wf _) hlast, Frac.ofNat_toRat,
+            Frac.zero_toRat, zero_add]
+          conv_rhs => rw [← List.dropLast_append_getLast hne, List.map_append, wsum_append]
+          simp only [List.map_cons, List.map_nil, wsum, List.length_map, List.length_dropLast, add_zero]
+          rw [getLast!_eq_getLast hne]
+          have : 2 + ((intervals (s :: ss)).length - 1) = n0 := by
+            have : 0 < (intervals (s :: ss)).length := List.length_pos_of_ne_nil hne
+            omega
+          rw [this]
+        have hn3 : 3 ≤ n0 := by
+          have : 0 < (intervals (s :: ss)).length := List.length_pos_of_ne_nil hne
+          omega
+        refine ⟨rfl, by simpa using hl', hn3, httq, ?_⟩
+        have hsub : (Frac.ofNat (n0 - 2)).toRat = (n0 : ℚ) - 2 := by
+          rw [Frac.ofNat_toRat]; push_cast [Nat.cast_sub (by omega : 2 ≤ n0)]; ring
+        rw [← hnum, Frac.sub_toRat (Frac.div_wf _ _) (Frac.half_wf _), Frac.div_toRat w2 (Frac.ofNat_wf _),
+          Frac.half_toRat (Frac.add_wf _ _), e2, hsub, Frac.zero_toRat, htt, httq]
+        simp
+
+theorem gammaParts_wf (a : AT) {num tt : Frac} {n : Nat} (h : gammaParts a = .ok (num, tt, n)) : num.WF ∧ tt.WF := by
+  unfold gammaParts at h
+  rcases hsa : specAges a with ⟨sa, n0⟩
+  rw [hsa] at h
+  simp only at h
+  cases hs : sortDesc sa with
+  | nil => rw [hs] at h; cases h
+  | cons s ss =>
+    rw [hs] at h
+    simp only at h
+    split at h
+    · cases h
+    · split at h
+      · cases h
+      · simp only [Except.ok.injEq, Prod.mk.injEq] at h
+        obtain ⟨hnum, htt, _⟩ := h
+        exact ⟨by rw [← hnum]; exact Frac.sub_wf _ _, by rw [← htt]; exact Frac.add_wf _ _⟩
+
 end DendroModel.C17.Aux
